@@ -543,6 +543,17 @@ func (ff *FnFacts) condFacts(cond ssa.Value, truth bool, at *ssa.BasicBlock) []F
 				kind = "istype"
 			}
 			return []Fact{{Kind: kind, A: ff.TB.Of(tup)}}
+		case *ssa.Call:
+			// comma-ok convention: `v, ok := f(...)`; on ok the success summary of f holds
+			if sig := tup.Common().Signature(); truth && sig != nil && c.Index == sig.Results().Len()-1 {
+				fs := []Fact{{Kind: k, A: ff.TB.Of(c)}}
+				set := FactSet{}
+				ff.addSummary(set, tup.Common(), ff.TB.Of(tup))
+				for _, f := range set.Sorted() {
+					fs = append(fs, f)
+				}
+				return fs
+			}
 		}
 		return []Fact{{Kind: k, A: ff.TB.Of(c)}}
 	case *ssa.Const:
@@ -803,7 +814,9 @@ func (ff *FnFacts) Returns() []ReturnInfo {
 	var out []ReturnInfo
 	ei := errResultIndex(fn)
 	res := fn.Signature.Results()
-	boolOnly := ei < 0 && res.Len() == 1 && types.Identical(res.At(0).Type().Underlying(), types.Typ[types.Bool])
+	// a trailing bool result (single, or the comma-ok convention `(value, ok)`) plays the role of the error
+	bi := res.Len() - 1
+	boolOnly := ei < 0 && res.Len() >= 1 && types.Identical(res.At(bi).Type().Underlying(), types.Typ[types.Bool])
 	for _, b := range fn.Blocks {
 		if !ff.Live[b] {
 			continue
@@ -829,7 +842,7 @@ func (ff *FnFacts) Returns() []ReturnInfo {
 				}
 			}
 		case boolOnly:
-			rv := RetOp(ret, 0)
+			rv := RetOp(ret, bi)
 			if c, ok := rv.(*ssa.Const); ok {
 				if c.Value.String() != "true" {
 					info.Class = RetFail
@@ -1110,4 +1123,9 @@ func RetOp(ret *ssa.Return, i int) ssa.Value {
 		return last
 	}
 	return v
+}
+
+// CondFacts returns the facts established when cond evaluates to truth.
+func (ff *FnFacts) CondFacts(cond ssa.Value, truth bool, at *ssa.BasicBlock) []Fact {
+	return ff.condFacts(cond, truth, at)
 }
